@@ -369,6 +369,12 @@ class Counter(LogicBlock):
         if self.config['control_events']:
             self._setup_control_events(self.config['control_events'])
 
+    def device_removed_from_mode(self, mode: Mode):
+        """Close the hit window when the mode ends."""
+        super().device_removed_from_mode(mode)
+        # the window's timer was cleared with the other delays. do not stay deaf when the mode starts again
+        self.ignore_hits = False
+
     def add_control_events_in_mode(self, mode: Mode) -> None:
         """Do not auto enable this device in modes."""
 
